@@ -9,6 +9,7 @@ Tier B:      generated scores (divisions 1,2,3,4,6,7,12,24,480 mixed across and 
 """
 import io
 import itertools
+from contracts import specfns as S
 from fractions import Fraction
 
 import numpy as np
@@ -162,7 +163,7 @@ def _scores(tier):
         if grace:
             graces.append(("%sg" % pid, start + bar // 2, "B", None, 4 + sh, 1, 1, "%sb" % pid))
         part = G.build_part(pid, divs, ts=((0, ts[0], ts[1]),), notes=notes, ties=ties, graces=graces, measures=meas, key=(1, "major"),
-                            extra=(lambda p, b: p.add(sc.Tempo(90, "q"), 0)))
+                            extra=(lambda p, b: (p.add(sc.Tempo(90, "q"), 0), p.add(sc.Tempo(60, "q."), start + bar), p.add(sc.Tempo(44, "e.."), start + 2 * bar))))
         return part
 
     out.append(("divs1", lambda: G.simple_score([one(1, tie=False)])))
@@ -189,6 +190,20 @@ def _scores(tier):
             p.add(sc.Note(step=st, octave=4, id=nid, voice=v, staff=1), s, e)
         return G.simple_score([p])
     out.append(("divisions_change_12_to_8_inside_part", with_change_12_8))
+
+    def with_history():
+        # divisions set to 6 at the second barline and then set back to 4 at the same time: the part has 4 divisions per quarter throughout
+        p = sc.Part("P1", quarter_duration=4)
+        p.set_quarter_duration(16, 6)
+        p.set_quarter_duration(16, 4)
+        p._verif_intended_quarter_changes = [(0, 4)]
+        p.add(sc.TimeSignature(4, 4), 0)
+        p.add(sc.Measure(number=1), 0, 16)
+        p.add(sc.Measure(number=2), 16, 32)
+        for (nid, s_, e_, st) in (("a", 0, 6, "C"), ("b", 6, 16, "E"), ("c", 16, 23, "G"), ("d", 23, 32, "A")):
+            p.add(sc.Note(step=st, octave=4, id=nid, voice=1, staff=1), s_, e_)
+        return G.simple_score([p])
+    out.append(("divisions_changed_and_changed_back_at_one_time", with_history))
 
     def with_change():
         # divisions change inside the part: 2 -> 3 at the second barline; a note held over the change
@@ -254,7 +269,7 @@ def bounded(b):
                 continue
             buf.seek(0)
             mf = mido.MidiFile(file=buf)
-            base = O.lcm([q for p in score.parts for q in p._quarter_durations])
+            base = O.lcm([q for p in score.parts for (_, q) in O.quarter_changes(p)])
             ppq = base
             while ppq < minppq:
                 ppq *= 2
@@ -302,6 +317,13 @@ def bounded(b):
                     t = mf.ticks_per_beat * (O.quarter_pos(p, tp.start.t) - ftp)
                     if not any(m.type == "set_tempo" and tk == t and tr == 0 for (tr, tk, m) in metas):
                         okm, whatm = False, "tempo mark not in the first track at tick %s" % t
+                    # the mark's beat unit counts: q. = 60 is 90 quarters per minute
+                    unit = (tp.unit or "q").strip()
+                    qpm = Fraction(tp.bpm) * S.note_value(unit.rstrip(".")) * S.dot_multiplier(unit.count("."))
+                    want_mpq = Fraction(60 * 10**6) / qpm
+                    if not any(m.type == "set_tempo" and tk == t and abs(m.tempo - want_mpq) <= 1 for (tr, tk, m) in metas):
+                        okm, whatm = False, "tempo %r %r at tick %s written as %r microseconds per quarter, the mark means %s" % (
+                            tp.bpm, tp.unit, t, [m.tempo for (tr, tk, m) in metas if m.type == "set_tempo" and tk == t], float(want_mpq))
             b.case("export/signatures_and_tempo_at_their_positions", okm, case, whatm)
             # re-import
             buf.seek(0)
